@@ -176,25 +176,35 @@ theorem map_digestItem_of_perm {xs ys : List (Scalar × Pre)} (h : xs.Perm ys) :
 
 /-! ### the theorem -/
 
+/-- the two pre-hash structures are nodes over the same bytes -/
+def EncEq (p q : Pre) : Prop := ∃ i ps j qs, p = .node i ps ∧ q = .node j qs ∧ evalPureList H ps = evalPureList H qs
+
+theorem EncEq.evalPure_eq {p q : Pre} (h : EncEq H p q) : evalPure H p = evalPure H q := by
+  obtain ⟨i, ps, j, qs, rfl, rfl, he⟩ := h
+  simp only [evalPure, he]
+
+theorem EncEq.of_parts {i j : Nat} {ps qs : List Pre} (h : evalPureList H ps = evalPureList H qs) :
+    EncEq H (.node i ps) (.node j qs) := ⟨i, ps, j, qs, rfl, rfl, h⟩
+
 mutual
 theorem order_indep_val : ∀ (v w : PyVal), Equiv v w → sortable v = true →
-    ∃ p q, pre v = .ok p ∧ pre w = .ok q ∧ evalPure H p = evalPure H q
+    ∃ p q, pre v = .ok p ∧ pre w = .ok q ∧ EncEq H p q
   | .sc a, w, he, _ => by
     cases w <;> simp only [Equiv] at he
     subst he
-    exact ⟨_, _, rfl, rfl, rfl⟩
+    exact ⟨_, _, rfl, rfl, EncEq.of_parts H rfl⟩
   | .path c f, w, he, _ => by
     cases w <;> simp only [Equiv] at he
     obtain ⟨rfl, rfl⟩ := he
-    exact ⟨_, _, rfl, rfl, rfl⟩
+    exact ⟨_, _, rfl, rfl, EncEq.of_parts H rfl⟩
   | .ndarray c d s x, w, he, _ => by
     cases w <;> simp only [Equiv] at he
     obtain ⟨rfl, rfl, rfl, rfl⟩ := he
-    exact ⟨_, _, rfl, rfl, rfl⟩
+    exact ⟨_, _, rfl, rfl, EncEq.of_parts H rfl⟩
   | .ty t, w, he, _ => by
     cases w <;> simp only [Equiv] at he
-    refine ⟨_, _, rfl, rfl, ?_⟩
-    simp only [evalPure, evalPureList, lit, he]
+    refine ⟨_, _, rfl, rfl, EncEq.of_parts H ?_⟩
+    simp only [evalPureList, lit, evalPure, he]
   | .seq i k xs, w, he, hs => by
     cases w <;> simp only [Equiv] at he
     rename_i j k' ys
@@ -202,8 +212,8 @@ theorem order_indep_val : ∀ (v w : PyVal), Equiv v w → sortable v = true →
     simp only [sortable] at hs
     obtain ⟨ps, qs, h1, h2, h3⟩ := order_indep_list xs ys hl hs
     refine ⟨_, _, by simp only [pre, h1, except_bind_ok, except_pure]; rfl,
-      by simp only [pre, h2, except_bind_ok, except_pure]; rfl, ?_⟩
-    rw [evalPure_seqNode, evalPure_seqNode, h3]
+      by simp only [pre, h2, except_bind_ok, except_pure]; rfl, EncEq.of_parts H ?_⟩
+    rw [evalPureList_wrap, evalPureList_wrap, h3]
   | .set i f xs, w, he, hs => by
     cases w <;> simp only [Equiv] at he
     rename_i j f' ys
@@ -223,9 +233,8 @@ theorem order_indep_val : ∀ (v w : PyVal), Equiv v w → sortable v = true →
       obtain ⟨s, e1, e2⟩ := set_sorted_eq ks ks' hkp hs
       have p1 := preList_scalars (asScalars_map_sc ks)
       have p2 := preList_scalars (asScalars_map_sc ks')
-      refine ⟨_, _, by simp only [pre, p1, e1, except_bind_ok, except_pure]; rfl,
-        by simp only [pre, p2, e2, except_bind_ok, except_pure]; rfl, ?_⟩
-      simp only [evalPure]
+      exact ⟨_, _, by simp only [pre, p1, e1, except_bind_ok, except_pure]; rfl,
+        by simp only [pre, p2, e2, except_bind_ok, except_pure]; rfl, EncEq.of_parts H rfl⟩
   | .dict i xs, w, he, hs => by
     cases w <;> simp only [Equiv] at he
     rename_i j ys
@@ -239,8 +248,8 @@ theorem order_indep_val : ∀ (v w : PyVal), Equiv v w → sortable v = true →
       rw [h3]; exact h5.map _
     obtain ⟨sx, sy, e1, e2, e3⟩ := sorted_items_eq H ps qs hk' hpm
     refine ⟨_, _, by simp only [pre, h1, e1, except_bind_ok, except_pure]; rfl,
-      by simp only [pre, h4, e2, except_bind_ok, except_pure]; rfl, ?_⟩
-    rw [evalPure_mapNode, evalPure_mapNode, e3]
+      by simp only [pre, h4, e2, except_bind_ok, except_pure]; rfl, EncEq.of_parts H ?_⟩
+    rw [evalPureList_wrapMap, evalPureList_wrapMap, e3]
   | .obj i c xs, w, he, hs => by
     cases w <;> simp only [Equiv] at he
     rename_i j c' ys
@@ -254,8 +263,8 @@ theorem order_indep_val : ∀ (v w : PyVal), Equiv v w → sortable v = true →
       rw [h3]; exact h5.map _
     obtain ⟨sx, sy, e1, e2, e3⟩ := sorted_items_eq H ps qs hk' hpm
     refine ⟨_, _, by simp only [pre, h1, e1, except_bind_ok, except_pure]; rfl,
-      by simp only [pre, h4, e2, except_bind_ok, except_pure]; rfl, ?_⟩
-    rw [evalPure_mapNode, evalPure_mapNode, e3]
+      by simp only [pre, h4, e2, except_bind_ok, except_pure]; rfl, EncEq.of_parts H ?_⟩
+    rw [evalPureList_wrapMap, evalPureList_wrapMap, e3]
   | .func i b code cells globals, w, he, hs => by
     cases w <;> simp only [Equiv] at he
     rename_i j b' code' cells' globals'
@@ -263,9 +272,32 @@ theorem order_indep_val : ∀ (v w : PyVal), Equiv v w → sortable v = true →
     simp only [sortable] at hs
     obtain ⟨ps, qs, h1, h2, h3⟩ := order_indep_list code code' hl hs
     refine ⟨_, _, by simp only [pre, h1, except_bind_ok, except_pure]; rfl,
-      by simp only [pre, h2, except_bind_ok, except_pure]; rfl, ?_⟩
-    simp only [evalPure, evalPureList_lit, evalPureList_append, evalPureList_funcBody, hsrc, hb, h3]
-  | .tyFields .., w, he, _ => by cases w <;> simp only [Equiv] at he
+      by simp only [pre, h2, except_bind_ok, except_pure]; rfl, EncEq.of_parts H ?_⟩
+    simp only [List.cons_append, evalPureList_lit, evalPureList_append, evalPureList_funcBody, hsrc, hb, h3]
+  | .tyFields i fs os, w, he, hs => by
+    cases w <;> simp only [Equiv] at he
+    rename_i j fs' os'
+    obtain ⟨hf, ho⟩ := he
+    simp only [sortable, Bool.and_eq_true, decide_eq_true_eq] at hs
+    obtain ⟨⟨hsf, hso⟩, hlen⟩ := hs
+    obtain ⟨ps, qs, h1, h2, h3⟩ := order_indep_list fs fs' hf hsf
+    -- the optional `.Outputs` class: none on both sides, or one on both sides with equal inline bytes
+    match os, os', ho, hso, hlen with
+    | [], [], _, _, _ =>
+      refine ⟨_, _, by simp only [pre, h1, preList, except_bind_ok, except_pure]; rfl,
+        by simp only [pre, h2, preList, except_bind_ok, except_pure]; rfl, EncEq.of_parts H ?_⟩
+      simp only [List.cons_append, evalPureList_lit, evalPureList_append, evalPureList_eq_flatten, h3]
+    | [], _ :: _, ho, _, _ => simp [EquivList] at ho
+    | _ :: _, [], ho, _, _ => simp [EquivList] at ho
+    | [o], [o'], ho, hso, _ =>
+      simp only [EquivList, and_true] at ho
+      simp only [sortableList, Bool.and_true] at hso
+      obtain ⟨p, q, g1, g2, i', ps', j', qs', rfl, rfl, g3⟩ := order_indep_val o o' ho hso
+      refine ⟨_, _, by simp only [pre, h1, preList, g1, except_bind_ok, except_pure]; rfl,
+        by simp only [pre, h2, preList, g2, except_bind_ok, except_pure]; rfl, EncEq.of_parts H ?_⟩
+      simp only [List.cons_append, evalPureList_lit, evalPureList_append, evalPureList_eq_flatten, h3]
+      simp only [← evalPureList_eq_flatten, g3]
+    | _ :: _ :: _, _, _, _, hlen => simp at hlen; omega
   | .task .., w, he, _ => by cases w <;> simp only [Equiv] at he
   | .ref _, w, he, _ => by cases w <;> simp only [Equiv] at he
 theorem order_indep_list : ∀ (xs ys : List PyVal), EquivList xs ys → sortableList xs = true →
@@ -278,7 +310,7 @@ theorem order_indep_list : ∀ (xs ys : List PyVal), EquivList xs ys → sortabl
     simp only [sortableList, Bool.and_eq_true] at hs
     obtain ⟨p, q, h1, h2, h3⟩ := order_indep_val x y he.1 hs.1
     obtain ⟨ps, qs, h4, h5, h6⟩ := order_indep_list xs ys he.2 hs.2
-    exact ⟨p :: ps, q :: qs, preList_cons_of h1 h4, preList_cons_of h2 h5, by simp [h3, h6]⟩
+    exact ⟨p :: ps, q :: qs, preList_cons_of h1 h4, preList_cons_of h2 h5, by simp [h3.evalPure_eq, h6]⟩
 theorem order_indep_items : ∀ (xs ys : List (Scalar × PyVal)), EquivItems xs ys → sortableItems xs = true →
     ∃ ps qs, preItems xs = .ok ps ∧ preItems ys = .ok qs ∧ ps.map (digestItem H) = qs.map (digestItem H)
   | [], [], _, _ => ⟨[], [], rfl, rfl, rfl⟩
@@ -290,7 +322,8 @@ theorem order_indep_items : ∀ (xs ys : List (Scalar × PyVal)), EquivItems xs 
     obtain ⟨rfl, hv, hr⟩ := he
     obtain ⟨p, q, h1, h2, h3⟩ := order_indep_val v v' hv hs.1
     obtain ⟨ps, qs, h4, h5, h6⟩ := order_indep_items xs ys hr hs.2
-    exact ⟨(k, p) :: ps, (k, q) :: qs, preItems_cons_of h1 h4, preItems_cons_of h2 h5, by simp [digestItem, h3, h6]⟩
+    exact ⟨(k, p) :: ps, (k, q) :: qs, preItems_cons_of h1 h4, preItems_cons_of h2 h5,
+      by simp [digestItem, h3.evalPure_eq, h6]⟩
 end
 
 end PydraModel.Hash
